@@ -92,10 +92,11 @@ type meWorld struct {
 	list []string
 	st   map[string]*refEP
 
-	viol     []vsched.Violation
-	poisoned bool
-	nontriv  bool
-	lastOp   string
+	callerList []string // the one slice the caller uses for every endpoint list it submits
+	viol       []vsched.Violation
+	poisoned   bool
+	nontriv    bool
+	lastOp     string
 }
 
 var universe = []string{"A", "B", "C"}
@@ -120,10 +121,19 @@ func allLists() [][]string {
 
 func newMEWorld(s *vsched.Sched, cfg meCfg, prop string) *meWorld {
 	w := &meWorld{s: s, cfg: cfg, prop: prop, st: map[string]*refEP{}}
-	me, err := NewMultiEndpoint(&MultiEndpointOptions{Endpoints: append([]string{}, cfg.Init...), RecoveryTimeout: cfg.R, SwitchingDelay: cfg.D})
+	callerOpts := &MultiEndpointOptions{Endpoints: append(make([]string, 0, 8), cfg.Init...), RecoveryTimeout: cfg.R, SwitchingDelay: cfg.D}
+	me, err := NewMultiEndpoint(callerOpts)
 	if err != nil {
 		panic(vsched.CheckError{Msg: "NewMultiEndpoint failed: " + err.Error()})
 	}
+	// the caller goes on using its options object for something else: the MultiEndpoint keeps the
+	// values it was configured with
+	callerOpts.RecoveryTimeout += 7 * ms
+	callerOpts.SwitchingDelay += 9 * ms
+	for i := range callerOpts.Endpoints {
+		callerOpts.Endpoints[i] = "overwritten-by-caller"
+	}
+	w.callerList = callerOpts.Endpoints[:0]
 	w.me = me
 	w.impl = me.(*multiEndpoint)
 	w.list = append([]string{}, cfg.Init...)
@@ -305,7 +315,11 @@ func (w *meWorld) Do(op string) {
 			keyBefore = w.Key()
 		}
 		var err error
-		if !w.runOp(op, func() { err = w.me.SetEndpoints(l) }) {
+		// the caller keeps ONE slice for its endpoint lists and rewrites it in place before every
+		// call (slices are passed by reference: a library that keeps the list must copy it)
+		w.callerList = append(w.callerList[:0], l...)
+		submitted := w.callerList
+		if !w.runOp(op, func() { err = w.me.SetEndpoints(submitted) }) {
 			return
 		}
 		w.refTime()
